@@ -20,6 +20,8 @@ pub enum Event {
     StopQuery,
     /// query_stopped() is about to read the flag.
     QueryStopped,
+    /// end_query() is about to start a new epoch.
+    EndQuery,
 }
 
 static HOOK: AtomicUsize = AtomicUsize::new(0);
